@@ -94,4 +94,21 @@ theorem flush_records_status :
         = storeFlushErrorEvents.count "markFlushed" + storeFlushErrorEvents.count "WriteHeader:200") := by
   decide
 
+/-- The model's `RW` has exactly three status-relevant entry points: `WriteHeader`, `Write` and
+    the flushes (through `markFlushed`).  That is sound only while `ResponseWriter` has no other
+    way to put a header on the wire: this lemma pins the COMPLETE method set declared in package
+    httpd (all non-test files) to `Header, Write, WriteHeader, Flush, markFlushed, FlushError`
+    and demands that the struct embeds nothing (an embedded http.ResponseWriter would promote the
+    origin's methods).  Any further method — `ReadFrom`, `WriteString`, `Unwrap`, `Hijack`,
+    `Push`, … — can reach `w.Origin` without going through `Write`/`WriteHeader`/`markFlushed`
+    (io.Copy, io.WriteString and http.ResponseController look for exactly such methods) and so
+    breaks the assumption under which `relay_contract` speaks about the code; it must be added
+    to the model (as `flush` was) before this lemma may be changed.  `Header` only exposes the
+    header map and sends nothing. -/
+theorem response_writer_method_set :
+    storeRWMethodsSorted = ["Flush", "FlushError", "Header", "Write", "WriteHeader", "markFlushed"]
+    ∧ storeRWMethods.length = 6
+    ∧ storeRWEmbedded = []
+    ∧ storeRWFields = ["Origin http.ResponseWriter", "Status int"] := by decide
+
 end Glb.Tie.Relay
